@@ -112,7 +112,10 @@ def gen_case(rng, layout_name, *, n_tempo=None, long_bpm=False, density=None):
                 i += 1
     rng.shuffle(objs)
     meta = dict(title=rng.choice(["", "a title", "題名"]), artist=rng.choice(["", "someone"]), version=rng.choice(["", "12"]), as_bytes=rng.random() < 0.5)
-    return dict(layout=layout_name, tempo=tempo, lnobj=lnobj, samples=samples, objs=objs, meta=meta)
+    order = list(range(len(tempo)))
+    if len(order) > 1 and rng.random() < 0.35:
+        rng.shuffle(order)
+    return dict(layout=layout_name, tempo=tempo, lnobj=lnobj, samples=samples, objs=objs, meta=meta, tempo_row_order=order)
 
 
 def build_map(case):
@@ -123,7 +126,12 @@ def build_map(case):
 
     tl = MemTimeline(case["tempo"])
     m = BMSMap()
-    m.bpms = BMSBpmList([BMSBpm(offset=o, bpm=b, metronome=4) for o, b in zip(tl.off_f, tl.bpm_f)])
+    bpm_rows = [BMSBpm(offset=o, bpm=b, metronome=4) for o, b in zip(tl.off_f, tl.bpm_f)]
+    # a chart is a set of timed objects: the tempo rows may be stored in any order (append without sort)
+    perm = case.get("tempo_row_order")
+    if perm is not None and len(perm) == len(bpm_rows):
+        bpm_rows = [bpm_rows[i] for i in perm]
+    m.bpms = BMSBpmList(bpm_rows)
     m.hits = BMSHitList([BMSHit(offset=o["t"], column=o["col"], sample=o["sample"].encode("shift_jis")) for o in case["objs"] if o["kind"] == "hit"])
     m.holds = BMSHoldList([BMSHold(offset=o["t"], column=o["col"], length=o["len"], sample=o["sample"].encode("shift_jis")) for o in case["objs"] if o["kind"] == "hold"])
     m.samples = {k.encode(): v.encode("shift_jis") for k, v in case["samples"].items()}
